@@ -2,6 +2,16 @@
 mod verif_kani_contracts {
     use super::*;
 
+    // `stub_verified` havocs what the contract `modifies`: it needs an Arbitrary instance for the type
+    impl kani::Arbitrary for ConfirmHistory {
+        fn any() -> Self {
+            ConfirmHistory {
+                mask: kani::any(),
+                last_tick: RepliconTick::new(kani::any()),
+            }
+        }
+    }
+
     fn any_history() -> ConfirmHistory {
         let h = ConfirmHistory {
             mask: kani::any(),
